@@ -815,3 +815,28 @@ Proof.
   { unfold w5, N_of. cbn. rewrite T4, B4. exact Hn. }
   rewrite E. cbn [fst hok]. unfold w5. cbn. rewrite B4. auto.
 Qed.
+
+(* ------------------------------------------------------------------ C09: when the polling loop of a human bell's tick ends *)
+(* The loop of WaitForUserRhythm.wait_for_bell_time for a user-controlled bell ends only when the
+   bell is no longer awaited on that stroke - or Wheatley was told to return to the main loop (Look
+   to / Stop touch), or the run was cut (horizon / fuel of the model). There is no time-out. *)
+Lemma wait_poll_exit : forall fuel w bell st acc,
+  let w' := fst (wait_poll fuel w bell st acc) in
+  w_fuel_out w' = true \/ Qltb (w_horizon w') (w_now w') = true \/
+  match w_rhythm w' with
+  | RWait ws _ => ws_return ws = true \/ mem_nat bell (ws_exp ws st) = false
+  | _ => True
+  end.
+Proof.
+  induction fuel as [|f IH]; intros w bell st acc; cbn [wait_poll fst].
+  - left. reflexivity.
+  - destruct (Qltb (w_horizon w) (w_now w)) eqn:H; cbn [fst]; [right; left; exact H|].
+    destruct (w_rhythm w) as [d|g|ws g] eqn:R; cbn [fst]; try (right; right; rewrite R; exact I).
+    destruct (mem_nat bell (ws_exp ws st)) eqn:M; cbn [fst].
+    2:{ right; right. rewrite R. right. exact M. }
+    set (w1 := sleep (S f) w SLEEP_001).
+    destruct (w_rhythm w1) as [d1|g1|ws1 g1] eqn:R1; cbn [fst]; try (right; right; rewrite R1; exact I).
+    destruct (ws_return ws1) eqn:RT; cbn [fst].
+    + right; right. rewrite R1. left. exact RT.
+    + apply IH.
+Qed.
